@@ -58,3 +58,32 @@ package config
 //@   nopanic
 //@   requires aset(p.value)
 //@   ensures [C17] result1 == nil ==> sid(result0) == jsonenc(aload(p.value).comittedValue.value)
+
+// ---------------------------------------------------------------- workable configurations (C18)
+
+// A cache configuration the proxy can run under: these are exactly the
+// preconditions of the consumers (cache constructors, shard lock selection,
+// the janitor's ticker, NewProxy's cache type switch).
+//@ spec func specWorkableCache(c ptr) bool = cfgval(c.MaxCacheSize) > 0 && cfgval(c.CleanupInterval) > 0 && cfgval(c.LockShards) >= 1 && cfgval(c.Memory.MemoryBudgetPercent) >= 0 && cfgval(c.Memory.MemoryBudgetPercent) <= 100 && len(cfgval(c.File.Dir)) > 0 && (sid(cfgval(c.Type)) == sid("file") || sid(cfgval(c.Type)) == sid("memory"))
+//@ spec func specCacheSet(c ptr) bool = aset(c.MaxCacheSize.value) && aset(c.CleanupInterval.value) && aset(c.LockShards.value) && aset(c.Memory.MemoryBudgetPercent.value) && aset(c.File.Dir.value) && aset(c.Type.value)
+
+//@ props C18 C16
+//@ func CacheConfig.verify
+//@   nopanic
+//@   pure
+//@   requires specCacheSet(c)
+//@   ensures [C18] result == nil ==> specWorkableCache(c)
+
+//@ props C18 C16
+//@ func ProxyConfig.verify
+//@   nopanic
+//@   pure
+//@   requires aset(c.Listen.value) && aset(c.CaCert.value) && aset(c.CaKey.value)
+//@   ensures [C18] result == nil ==> len(cfgval(c.Listen)) > 0 && len(cfgval(c.CaCert)) > 0 && len(cfgval(c.CaKey)) > 0
+
+//@ props C18 C16
+//@ func WebserverConfig.verify
+//@   nopanic
+//@   pure
+//@   requires aset(c.Listen.value)
+//@   ensures [C18] result == nil ==> len(cfgval(c.Listen)) > 0
